@@ -732,6 +732,55 @@ static void runBits(const Case &c) {
 }
 
 // C20: the grammar and compacted sequence the real compressor produces (two-phase).
+// C17: DAC_VLS built from a list of sequences: internal layout and every access path.
+static void runDac(const Case &c) {
+  for (auto &op : c.ops) {
+    g_op++;
+    if (op[0] == "dac") { // dac <log_r> <a,b,c;d;e,f> [reload]
+      uint logr = (uint)atoi(op[1].c_str());
+      auto seqs = splitc(op[2], ';');
+      vector<vector<uint>> L;
+      for (auto &sq : seqs) { vector<uint> v; for (auto &x : splitc(sq)) v.push_back((uint)strtoul(x.c_str(), nullptr, 10)); L.push_back(v); }
+      size_t total = 0, maxseq = 0;
+      for (auto &v : L) { total += v.size() + 1; maxseq = std::max(maxseq, v.size()); }
+      int *list = new int[total + 1];
+      size_t ic = 0;
+      for (size_t i = 0; i < L.size(); i++) { for (uint x : L[i]) list[ic++] = (int)x; list[ic++] = -(int)(i + 1); }
+      DAC_VLS *d = new DAC_VLS(list, (uint)ic, logr, (uint)maxseq);
+      delete[] list;
+      bool reload = op.size() > 3 && op[3] == "reload";
+      if (reload) {
+        std::stringstream ss(std::ios::in | std::ios::out | std::ios::binary);
+        d->save(ss);
+        string img = ss.str();
+        std::stringstream s2(img + "TRAILER!", std::ios::in | std::ios::out | std::ios::binary);
+        DAC_VLS *d2 = DAC_VLS::load(s2);
+        bool all = (long)s2.tellg() == (long)img.size();
+        delete d; d = d2;
+        if (!all) { emit("DAC consumed=not-all"); delete d; continue; }
+      }
+      string idx, bits, acc, nxt;
+      for (uint j = 0; j <= d->nLevels; j++) idx += (j ? "," : "") + std::to_string(d->levelsIndex[j]);
+      size_t blen = d->nLevels ? d->levelsIndex[d->nLevels - 1] + 1 : 0;
+      for (size_t k = 0; k < blen; k++) bits += d->bS->access(k) ? '1' : '0';
+      // the first symbols of the sequences are the entries of level 0, in order
+      for (uint pos = 1; pos <= d->getListLength(); pos++) {
+        uint *sq = nullptr;
+        uint len = d->access(pos, &sq);
+        if (pos > 1) acc += ";";
+        for (uint t = 0; t < len; t++) acc += (t ? "," : "") + std::to_string(sq[t]);
+        delete[] sq;
+        if (pos > 1) nxt += ";";
+        uint p = pos, l = 0;
+        while (p != (uint)-1) { uint v = d->access_next(l, &p); nxt += (l ? "," : "") + std::to_string(v); l++; }
+      }
+      emit("DAC n=%u len=%u idx=%s bits=%s acc=%s nxt=%s", d->nLevels, d->getListLength(), idx.c_str(), bits.empty() ? "-" : bits.c_str(),
+           acc.empty() ? "-" : acc.c_str(), nxt.empty() ? "-" : nxt.c_str());
+      delete d;
+    } else emit("ERR unknown-op");
+  }
+}
+
 static void runRePair(const Case &c) {
   for (auto &op : c.ops) {
     g_op++;
@@ -775,6 +824,7 @@ static void runCase(const Case &c) {
   else if (c.stream == "codes") runCodes(c);
   else if (c.stream == "bits") runBits(c);
   else if (c.stream == "repair") runRePair(c);
+  else if (c.stream == "dac") runDac(c);
   else emit("ERR unknown-stream %s", c.stream.c_str());
 }
 
